@@ -1234,8 +1234,15 @@ class VectorImpl : public VectorDestr<T, Alloc, SizeType, WithInlineElements, Gr
 
   template <class InputIt>
   void append_range(InputIt first, InputIt last, std::input_iterator_tag) {
-    for (; first != last; ++first) {
-      this->emplace_back(*first);
+    const SizeType oldSize = this->size();
+    try {
+      for (; first != last; ++first) {
+        this->emplace_back(*first);
+      }
+    } catch (...) {
+      // the number of elements is not known in advance: remove those already appended (strong guarantee)
+      erase(this->begin() + oldSize, end());
+      throw;
     }
   }
 
